@@ -14,7 +14,7 @@ func init() {
 }
 
 func runC15(c map[string]interface{}) []Event {
-	e := Event{"ev": "similar", "gh": false, "hg": false, "agh": false, "ahg": false}
+	e := Event{"ev": "similar", "gh": false, "hg": false, "agh": false, "ahg": false, "inputsame": false}
 	e["out"] = safely(func() {
 		// "sh": coordinates and tolerance times 2^sh (exact)
 		sh := 0
@@ -25,8 +25,16 @@ func runC15(c map[string]interface{}) []Event {
 		g := decGeom(c["g"], dec)
 		h := decGeom(c["h"], dec)
 		tol := math.Ldexp(float64(num(c["tol"])), sh)
+		// every other case: the vertex lists of each geometry lie back to back in one array of points (as a decoder that
+		// allocates all vertices at once leaves them), each list with the rest of the array as spare capacity
+		if (len(str(c["g"].(map[string]interface{})["t"]))+int(seed()))%2 == 0 {
+			c15Share(g)
+			c15Share(h)
+		}
 		e["gh"] = g.Similar(h, tol)
 		e["hg"] = h.Similar(g, tol)
+		// neither operand has been written to
+		e["inputsame"] = reflect.DeepEqual(g, decGeom(c["g"], dec)) && reflect.DeepEqual(h, decGeom(c["h"], dec))
 		e["agh"], e["ahg"] = e["gh"], e["hg"]
 		// when one geometry is the other with trailing members removed, the same comparison is also made between values that
 		// share their storage (the shorter one is a re-slice of the longer): the answer is about the values
@@ -48,6 +56,45 @@ func runC15(c map[string]interface{}) []Event {
 		}
 	})
 	return []Event{e}
+}
+
+// c15Share re-homes every vertex list of g (in place) into one shared array of points
+func c15Share(g geom.Geom) {
+	var lists []*[]geom.Point
+	var walk func(g geom.Geom)
+	walk = func(g geom.Geom) {
+		switch x := g.(type) {
+		case geom.MultiLineString:
+			for i := range x {
+				lists = append(lists, (*[]geom.Point)(&x[i]))
+			}
+		case geom.Polygon:
+			for i := range x {
+				lists = append(lists, (*[]geom.Point)(&x[i]))
+			}
+		case geom.MultiPolygon:
+			for _, p := range x {
+				for i := range p {
+					lists = append(lists, (*[]geom.Point)(&p[i]))
+				}
+			}
+		case geom.GeometryCollection:
+			for _, m := range x {
+				walk(m)
+			}
+		}
+	}
+	walk(g)
+	n := 0
+	for _, l := range lists {
+		n += len(*l)
+	}
+	pts := make([]geom.Point, 0, n)
+	for _, l := range lists {
+		off := len(pts)
+		pts = append(pts, (*l)...)
+		*l = pts[off:len(pts):cap(pts)]
+	}
 }
 
 // random multi-geometries with members on a coarse grid (far apart), random permutation + jitter or one displaced vertex
